@@ -10,7 +10,7 @@
 #include <string.h>
 #include <stdlib.h>
 
-enum { V_RESIZE = 1, V_RESERVE, V_SHRINK, V_CLEAR, V_SWAP, V_SORT, V_REVERSE, V_WRITE, V_AT };
+enum { V_RESIZE = 1, V_RESERVE, V_SHRINK, V_CLEAR, V_SWAP, V_SORT, V_REVERSE, V_WRITE, V_AT, V_SEARCH, V_FIND };
 
 static const char *v_opname(int k)
 {
@@ -18,6 +18,7 @@ static const char *v_opname(int k)
     case V_RESIZE: return "resize"; case V_RESERVE: return "reserve"; case V_SHRINK: return "shrink_to_fit";
     case V_CLEAR: return "clear"; case V_SWAP: return "swap"; case V_SORT: return "sort";
     case V_REVERSE: return "reverse"; case V_WRITE: return "write"; case V_AT: return "at";
+    case V_SEARCH: return "search"; case V_FIND: return "find";
     }
     return "?";
 }
@@ -46,7 +47,7 @@ static uint64_t budget;
 static uint32_t next_tag, tagmask;
 static unsigned maxreach;
 
-#define PROP() (mode_g == 16 ? "C16" : "C09")
+#define PROP() (mode_g == 16 ? "C16" : mode_g == 11 ? "C11" : "C09")
 #define VIOL(oracle, ...) do { char _k[128]; \
         snprintf(_k, sizeof _k, "%s/%s/%s/%s", PROP(), oracle, v_opname(g_run.opkind), g_cur_ctx); \
         sim_violation(_k, __VA_ARGS__); } while (0)
@@ -135,6 +136,52 @@ static int cmp_tag(const void *a, const void *b, void *priv)
     uint32_t x = untag(a), y = untag(b);
     (void)priv;
     return sim_cmp((x > y) - (x < y));
+}
+
+/* search / find: the probe is a harness object, everything else must be an element of the vector searched */
+static unsigned char sprobe[64]; static const cstl_vector_t *svec; static uint64_t scmps;
+static int cmp_search(const void *a, const void *b, void *priv)
+{
+    CB_ENTER();
+    const unsigned char *base = cstl_vector_data((cstl_vector_t *)svec);
+    size_t n = cstl_vector_size(svec);
+    const void *pp[2] = { a, b }; int q, r;
+    for (q = 0; q < 2; q++) {
+        const unsigned char *x = pp[q];
+        if (x == sprobe) continue;
+        if (base == NULL || x < base || x >= base + n * es || (size_t)(x - base) % es)
+            VIOL("compare_foreign_pointer", "the comparison function was handed a pointer that is neither the probe nor an element of the vector");
+    }
+    if (priv != (void *)sprobe) VIOL("compare_priv", "the comparison function was not handed the caller's priv pointer");
+    if (++scmps > 4 * (uint64_t)(n + 16)) VIOL("no_termination", "search/find of %zu elements made more than %llu comparisons", n, (unsigned long long)(4 * (n + 16)));
+    { uint32_t x = untag(a), y = untag(b); r = sim_cmp((x > y) - (x < y)); }
+    CB_LEAVE();
+    return r;
+}
+
+/* a caller-supplied swap: both operands are elements of the vector */
+static void vswap_cb(void *a, void *b, void *t, size_t len)
+{
+    CB_ENTER();
+    unsigned char *base = cstl_vector_data((cstl_vector_t *)svec);
+    size_t n = cstl_vector_size(svec), cap = cstl_vector_capacity(svec);
+    void *pp[2] = { a, b }; int q;
+    for (q = 0; q < 2; q++) {
+        unsigned char *x = pp[q];
+        if (base == NULL || x < base || x >= base + n * es || (size_t)(x - base) % es)
+            VIOL("swap_foreign_pointer", "the swap function was handed a pointer that is not an element of the vector");
+    }
+    {
+        /* the scratch may be anywhere (the pinned tree uses the slot at index capacity) but not on top of an element,
+         * and if it is heap memory it must be live and large enough */
+        int live; size_t off, size;
+        (void)cap;
+        if ((unsigned char *)t + len > base && (unsigned char *)t < base + n * es) VIOL("swap_scratch_overlaps", "the swap function was handed scratch space that overlaps the elements");
+        if (simheap_find(t, &live, &off, &size) >= 0 && (!live || off + len > size)) VIOL("swap_scratch_dead", "the swap function was handed scratch space that is not inside a live allocation");
+    }
+    if (len != es) VIOL("swap_len", "the swap function was told %zu bytes for %zu-byte elements", len, es);
+    memcpy(t, a, len); memcpy(a, b, len); memcpy(b, t, len);
+    CB_LEAVE();
 }
 
 /* ------------------------------------------------------------------ audit */
@@ -394,8 +441,16 @@ static void v_once(const plan_t *p)
                 unsigned al = (unsigned)(o->a[1] % 5);
                 if (m->n > 8000 && al == 0) al = 3;         /* first-element pivot may be quadratic: not on very large vectors */
                 if (al == 4) TRY(cstl_vector_sort(v, cmp_tag, NULL));
+                else if (mode_g == 11 && (o->a[2] & 3) == 0) {
+                    static const int odd[] = { 7, -1, 100, 4 };
+                    svec = v; PROBE("vector_sort_checked_swap");
+                    TRY(__cstl_vector_sort(v, cmp_tag, NULL, vswap_cb, (cstl_sort_algorithm_t)((o->a[2] & 4) ? odd[(o->a[2] >> 3) & 3] : (int)al)));
+                }
                 else TRY(__cstl_vector_sort(v, cmp_tag, NULL, cstl_swap, (cstl_sort_algorithm_t)al));
                 if (m->n > 65536) PROBE("vector_above_2^16");
+            } else if (mode_g == 11 && (o->a[2] & 1)) {
+                svec = v;
+                TRY(__cstl_vector_reverse(v, vswap_cb));
             } else {
                 TRY(cstl_vector_reverse(v));
             }
@@ -415,9 +470,34 @@ static void v_once(const plan_t *p)
             size_t i; unsigned char *base = cstl_vector_data(v);
             if (m->n == 0) { EVT("skip", 0, 0, 0); break; }
             i = (size_t)(o->a[1] % m->n);
-            m->tag[i] = fresh_tag();
+            m->tag[i] = (mode_g == 11 && (o->a[2] & 4) && m->tag[(size_t)((o->a[2] >> 3) % m->n)] != UNKNOWN) ? m->tag[(size_t)((o->a[2] >> 3) % m->n)] : fresh_tag();   /* duplicates for search/find */
             fill(base + i * es, m->tag[i]);
             EVT("write", s, i, m->tag[i]);
+            break;
+        }
+        case V_SEARCH: case V_FIND: {
+            size_t i, first = 0; int exists = 0, is_sorted = 1; uint32_t want; static ssize_t sres;
+            unsigned char *base = cstl_vector_data(v);
+            for (i = 0; i < m->n; i++) if (m->tag[i] == UNKNOWN) { m->tag[i] = fresh_tag(); fill(base + i * es, m->tag[i]); }
+            for (i = 1; i < m->n; i++) if (untag(base + (i - 1) * es) > untag(base + i * es)) is_sorted = 0;
+            if (o->kind == V_SEARCH && !is_sorted) { EVT("skip", 0, 0, 0); break; }       /* binary search is defined on sorted vectors */
+            want = (o->a[1] & 1) && m->n ? m->tag[(size_t)(o->a[2] % m->n)] : (uint32_t)(o->a[2] & tagmask);
+            fill(sprobe, want); want = untag(sprobe);
+            for (i = 0; i < m->n; i++) if (untag(base + i * es) == want) { exists = 1; first = i; break; }
+            svec = v; scmps = 0;
+            g_cur_ctx = exists ? "present" : "absent";
+            if (o->kind == V_SEARCH) TRY(sres = cstl_vector_search(v, sprobe, cmp_search, sprobe));
+            else TRY(sres = cstl_vector_find(v, sprobe, cmp_search, sprobe));
+            if (g_aborted) VIOL("abort", "%s aborted", v_opname(o->kind));
+            if (!exists) { if (sres != -1) VIOL("absent", "%s returned %zd for a value that is not in the vector", v_opname(o->kind), sres); PROBE("vector_probe_absent"); }
+            else {
+                PROBE("vector_probe_present");
+                if (sres < 0 || (size_t)sres >= m->n) VIOL("present", "%s returned %zd although an equal element exists (vector of %zu)", v_opname(o->kind), sres, m->n);
+                if (untag(base + (size_t)sres * es) != want) VIOL("wrong_index", "%s returned index %zd whose element does not compare equal", v_opname(o->kind), sres);
+                if (o->kind == V_FIND && (size_t)sres != first) VIOL("not_first", "find returned index %zd, the first equal element is at %zu", sres, first);
+            }
+            if (m->n == 0) PROBE("vector_search_empty");
+            EVT(v_opname(o->kind), s, (uint64_t)sres, want);
             break;
         }
         case V_AT: {
@@ -498,7 +578,10 @@ static void v_gen(prng_t *r, int mode, plan_t *p)
         unsigned x = (unsigned)prng_below(r, 100);
         int kind = x < 32 ? V_RESIZE : x < 46 ? V_RESERVE : x < 54 ? V_SHRINK : x < 58 ? V_CLEAR : x < 63 ? V_SWAP
                  : x < 71 ? V_SORT : x < 77 ? V_REVERSE : x < 92 ? V_WRITE : V_AT;
-        op_t *o = plan_add(p, kind);
+        op_t *o;
+        if (mode == 11) kind = x < 14 ? V_RESIZE : x < 18 ? V_RESERVE : x < 21 ? V_SHRINK : x < 23 ? V_CLEAR : x < 27 ? V_SWAP
+                 : x < 42 ? V_SORT : x < 50 ? V_REVERSE : x < 62 ? V_WRITE : x < 82 ? V_SEARCH : x < 97 ? V_FIND : V_AT;
+        o = plan_add(p, kind);
         o->a[0] = prng_below(r, 2);
         o->a[2] = prng_next(r) >> 8;
         if (kind == V_RESIZE) o->a[1] = prng_below(r, 12);                               /* never a huge size mid-plan: it would abort */
